@@ -10,6 +10,7 @@ mod endpoint;
 mod net;
 mod port;
 mod robs_deque;
+mod robs_lag;
 mod robs_list;
 mod robs_vec;
 mod io;
@@ -179,7 +180,11 @@ fn main() {
     let stdout = std::io::stdout();
     let mut out = std::io::BufWriter::new(stdout.lock());
     // panics inside the implementation are observations, not harness failures
-    std::panic::set_hook(Box::new(|_| {}));
+    std::panic::set_hook(Box::new(|info| {
+        if std::env::var_os("VH_PANIC").is_some() {
+            eprintln!("{info}");
+        }
+    }));
     match comp {
         "codec" => codec::run(seed, count, &extra, &mut out),
         "port" => port::run(seed, count, &extra, &mut out),
@@ -187,6 +192,7 @@ fn main() {
         "net" => net::run(seed, count, &extra, &mut out),
         "robs_deque" => robs_deque::run(seed, count, &extra, &mut out),
         "robs_list" => robs_list::run(seed, count, &extra, &mut out),
+        "robs_lag" => robs_lag::run(seed, count, &extra, &mut out),
         "robs_vec" => robs_vec::run(seed, count, &extra, &mut out),
         "robs_map" => robs_map::run(seed, count, &extra, &mut out),
         "robs_set" => robs_set::run(seed, count, &extra, &mut out),
